@@ -200,5 +200,56 @@ def rule_o4(repo):
     return res
 
 
+def rule_o5(repo):
+    """one_var_analysis compares bounds as if the one variable left had coefficient +1 / -1 ("our gcd checks
+    will have ensured ...").  That holds only if *every* factoid that enters a database was divided by the gcd of
+    its coefficients - the rows given by the caller as much as the derived ones - and if the gcd of a single
+    negative coefficient is its absolute value (functools.reduce(gcd, [-3]) is -3: nothing is reduced)."""
+    res = RuleResult('C16.O5', 'every factoid that enters a constraint database was divided by the gcd of its coefficients, or is copied from a database', floor=3)
+    m = repo.module('prover/omega.py')
+    for f in m.all_funcs:
+        if f.name == 'insert_db' or f.parent is not None:
+            continue
+        calls = [c for c in ast.walk(f.node) if isinstance(c, ast.Call) and call_name(c) == 'insert_db' and len(c.args) == 2]
+        if not calls:
+            continue
+        from ..cfg import cfg_of
+        cfg = cfg_of(f.node)
+        for c in calls:
+            v = c.args[1]
+            key = 'prover/omega.py :: %s :: insert(%s)@%s' % (f.qualname, src(v, 30), src(c.args[0], 15))
+            if not isinstance(v, ast.Name):
+                res.add(key, False, 'line %d inserts `%s` as it is built: the row is never divided by the gcd of its coefficients, and the bounds '
+                        'of a variable with coefficient 3 are compared as if it were 1 ([[1, 1], [-3, -2]] was answered UNSAT, x = -1 satisfies it)' % (
+                            c.lineno, src(v, 40)), 'prover/omega.py:%d' % c.lineno)
+                continue
+            node = cfg.node_for(c)
+            need(node is not None, 'omega.%s: insert_db call not in the flow graph' % f.qualname)
+            defs = cfg.reaching_assignments(node, v.id)
+            need(defs, 'omega.%s: no definition of `%s` reaches the insertion' % (f.qualname, v.id))
+            problems = []
+            built = [d for d in defs if d.kind == 'stmt' and isinstance(d.ast, ast.Assign)]
+            copied = [d for d in defs if not (d.kind == 'stmt' and isinstance(d.ast, ast.Assign))]
+            if built:
+                # a gcd computation over the coefficients of v dominates the insertion
+                gcds = [n for n in cfg.nodes if n.kind == 'stmt' and isinstance(n.ast, ast.Assign) and isinstance(n.ast.value, ast.Call) and
+                        call_name(n.ast.value) in ('functools.reduce', 'reduce') and n.ast.value.args and is_name(n.ast.value.args[0], 'gcd') and
+                        any(is_name(x, v.id) for x in ast.walk(n.ast.value))]
+                dom = [g for g in gcds if cfg.dominates(g, node)]
+                if not dom:
+                    problems.append('`%s` is built at line %d and inserted at line %d without a gcd reduction in between' % (v.id, built[0].lineno, c.lineno))
+                else:
+                    g = dom[0].ast.value
+                    absolute = (len(g.args) >= 3 and isinstance(g.args[2], ast.Constant) and g.args[2].value == 0) or \
+                        any(isinstance(x, ast.Call) and call_name(x) == 'abs' for x in ast.walk(g))
+                    if not absolute:
+                        problems.append('line %d `%s`: the gcd of a single negative coefficient is that coefficient itself (reduce without the initial 0), '
+                                        'so 0 <= -3x - 2 is not reduced to 0 <= -x - 1' % (dom[0].lineno, src(g, 50)))
+            res.add(key, not problems,
+                    ('copied from a database' if not built else 'divided by the (non-negative) gcd of its coefficients before it is inserted') if not problems else
+                    '; '.join(problems), 'prover/omega.py:%d' % c.lineno)
+    return res
+
+
 def rules(repo):
-    return [rule_o1(repo), rule_o2(repo), rule_o3(repo), rule_o4(repo)]
+    return [rule_o1(repo), rule_o2(repo), rule_o3(repo), rule_o4(repo), rule_o5(repo)]
